@@ -491,8 +491,8 @@ func (r *runner) runFault(sc *Scenario, tw *twin, k int) {
 			all = append(all, p)
 		}
 	}
-	// the failing commit was a direct write of a lazy filter initialisation (a fill that crosses a
-	// window boundary persists the window): the model does not enumerate faults there
+	// the failing commit was a direct write of a lazy filter initialisation (a fill that reaches the
+	// end of a window persists it): the model's `failInit` fault
 	initFault := false
 	finish := func() {
 		if failedStep < 0 {
@@ -505,6 +505,11 @@ func (r *runner) runFault(sc *Scenario, tw *twin, k int) {
 			for _, p := range all {
 				if strings.Contains(p.Detail, "couldn't initialize the running event filter") {
 					cause = sigInitCached
+					if failedOp != "snap" && failedOp != "restart" {
+						// Store / RevertHead / Finalise drop the filter when they fail (3373c0b): an
+						// initialisation error that survives THEM is a different defect
+						cause = "filter-init-error-survives-failed-" + failedOp
+					}
 					causeWhat = fmt.Sprintf("commit %d was the window write of a lazy running-filter initialisation (a fill that reaches the end of a window) "+
 						"inside step %d %s; ensureInit keeps the error for the life of the instance (sync.Once): later calls return it although the "+
 						"database is intact and healthy (only a failing Store / RevertHead / Finalise drops it again).", k, failedStep, &sc.Steps[failedStep])
@@ -590,6 +595,29 @@ func (r *runner) runFault(sc *Scenario, tw *twin, k int) {
 		}
 		ps = append(ps, lp...)
 		note(ps, "after-failed-"+s.Op+"-commit-")
+		// in every other run a DIFFERENT call comes between the failure and the retry: the head is
+		// offered again; it must be refused and must change nothing
+		if head := before.Head(); head != nil && !initFault && !sc.Pruning && singleCommitOp(s.Op) && (uint64(k)+sc.Seed)%2 == 1 {
+			other := &Step{Op: "rejected", B: head, After: *before}
+			d0 := digest(store)
+			tr.before(n)
+			oerr := n.exec(other)
+			changed := digest(store) != d0
+			tr.step(other, oerr, n, store)
+			r.res.Hit("different-call-before-retry:" + s.Op)
+			if oerr != nil {
+				all.add("after-failed-"+s.Op+"-commit-head-offered-again-is-accepted", "after step %d %s failed, block %d (the head) was offered again: %v", i, s, head.Block.Number, oerr)
+				return
+			}
+			if changed {
+				all.add("after-failed-"+s.Op+"-commit-refused-offer-changes-disk", "after step %d %s failed, the refused offer of block %d changed the store", i, s, head.Block.Number)
+			}
+			ops2, c4, w4 := r.liveChecks(n, store, w, ghost, true)
+			if c4 != "" && cause == "" {
+				cause, causeWhat = c4, w4
+			}
+			note(ops2, "after-failed-"+s.Op+"-commit-and-refused-offer-")
+		}
 		// retry: the failed call must be repeatable on the live node
 		tr.before(n)
 		err = n.exec(s)
